@@ -90,6 +90,7 @@ POSITIONS = {
     "types.rs:emit_pattern:fname": "struct-pattern-field",
     "types.rs:emit_pattern:s": "enum-pattern-path-segment",
     "types.rs:emit_pattern:variant": "enum-variant",
+    "decls.rs:emit_impl:Self :: escape_keyword ( & p . name )": "method-parameter",   # `__eq__` right-hand operand (after the eq-param-name fix)
     # --- the same 45 sites as spelled after the `fix:` commits (fed expression now goes through escape_keyword)
     "decls.rs:emit_decl:Self :: escape_keyword ( name )": "type-alias-name",
     "decls.rs:emit_decl:Self :: escape_keyword ( name )#2": "const-name",
@@ -589,11 +590,6 @@ def run(chk):
         "FIXED_PRELUDE (names the generated code relies on besides the extracted `__` temporaries) is a hand list",
         "the semantic half of C13 ('what it does') is covered through token-stream equality modulo the renaming (whole corpus, 4 bijections) and, in the thorough tier, by running two feature programs; not by running the whole corpus",
     ]
-    if os.path.exists(os.path.join(vlib.BUILD, "kf-C13.json")):
-        # TEMPORARY FALLBACK (lead: drop after merging build/kf-C13.json into known_findings.json): entries proposed there
-        # whose id is not in known_findings.json yet (currently: eq-param-name) are honoured
-        have = {f.get("id") for f in chk.findings}
-        chk.findings = list(chk.findings) + [f for f in json.load(open(os.path.join(vlib.BUILD, "kf-C13.json"))) if f.get("id") not in have]
     known = [f for f in chk.findings if f.get("status") == "known"]
     known_ids = {f["id"] for f in known}
     known_site = finding_sites(chk.findings)
@@ -1399,6 +1395,7 @@ def main() -> None:
     for idx in range(LIMIT):
         println(f"idx={idx} pick={pick(idx, 9)}")
 ''',
+    # regression witness of the repaired `eq-param-name` finding: the parameter of __eq__ is renamed by every bijection
     "feature_eq": '''class Money:
     cents: int
 
